@@ -60,6 +60,7 @@ def tree_hash(root):
     files = sorted(glob.glob(os.path.join(root, 'src', '**', '*.rs'), recursive=True)) + \
         [os.path.join(root, 'Cargo.toml'), os.path.join(root, 'Cargo.lock')]
     for p in files:
+        if not os.path.exists(p): continue          # Cargo.lock is git-ignored in jawk: a fresh worktree has none
         h.update(os.path.relpath(p, root).encode()); h.update(b'\0')
         with open(p, 'rb') as f:
             h.update(f.read())
